@@ -136,4 +136,8 @@ def run(ctx):
   shape.check_content_interval_hull(ctx)
   shape.check_cache_keys(ctx, common.funcs(ctx, ["ttconv.isd"]))
   isdrules.check_body_frame(ctx)
+  # content that references a region object that is no longer registered appears in no region of any snapshot
+  from . import c15 as _c15
+  from ..modelfacts import ModelFacts as _MF
+  _c15.check_registry(ctx, _MF(ctx.ix))
   common.check_history_independence(ctx, common.CORE)
